@@ -11,6 +11,7 @@ spec->code: the same on the implementation: the two-subgraph model and the two e
             annotations (exact floats) and constant bytes of subgraph i must be equal; opcode indices are excluded,
             builtin codes compared. TLC (Observed.tla) also evaluates the graph predicates on the pair's result.
 """
+import copy
 import json
 import os
 import sys
@@ -23,6 +24,15 @@ common.setup_env()
 from harness import configs, pipecheck, pipeline, project, rgen, synth  # pylint: disable=g-import-not-at-top
 
 M = configs.M
+
+
+SHARE_WHY = ("buffer_sharing", "both_q_and_unq")
+
+
+def cross_shared(scn):
+  """Some constant buffer is referenced from two different subgraphs."""
+  gs = [set(g for g in sub.get("tbuf", []) if g) for sub in scn["subs"]]
+  return any(gs[i] & gs[j] for i in range(len(gs)) for j in range(i + 1, len(gs)))
 
 
 def single(scn, si):
@@ -98,6 +108,8 @@ def _impl_task(item):
     parts.append(pipeline.run_impl(sscn, seed=seed, model=smodel, info=sinfo, stats=stats))
   # outcome: the pair raises iff a part raises
   part_raise = [p for p in parts if p["outcome"] != "done"]
+  if multi["outcome"] != "done" and not part_raise and scn.get("share_raise_predicted") and multi["why"] in SHARE_WHY:
+    return out      # sharers across the subgraphs that need different versions of the tied constant: refused as C15 demands
   if (multi["outcome"] != "done") != bool(part_raise):
     out["problems"].append(("outcome", "pair %s/%s, parts %s" % (multi["outcome"], multi["why"], [(p["outcome"], p["why"]) for p in parts])))
     return out
@@ -149,6 +161,42 @@ def main():
   rfp, rd = pipecheck.design_run_from("C19_random_pairs", rand, [], timeout=7200)
   for k, d in rd.items():
     pairs.setdefault(k, d)
+  # pairs whose subgraphs SHARE a constant buffer (a tied weight), one of them reading its tensor from two operators; every
+  # assignment of float / weight-only / dynamic-range / static-range to the three operators, both subgraph orders, the two readers side by
+  # side or chained, with and without a (private) bias
+  shared = []
+  smodes = [rgen.NOQ, {"m": "WO", "a": "-", "w": "w8c"}, {"m": "DRQ", "a": "-", "w": "w8c"}, {"m": "SRQ", "a": "a8a", "w": "w8c"}]
+  for chained in (False, True):
+    for bias in (False, True):
+      one = {"ops": [{"kind": "FC", "ins": [0, 1, 2 if bias else -1], "outs": [3 if bias else 2]}],
+             "trole": ["act", "w"] + (["b"] if bias else []) + ["act"], "gins": [0], "gouts": [3 if bias else 2]}
+      nb = 1 if bias else 0
+      o1, o2 = 2 + nb, 3 + nb
+      two = {"ops": [{"kind": "FC", "ins": [0, 1, 2 if bias else -1], "outs": [o1]}, {"kind": "FC", "ins": [o1 if chained else 0, 1, -1], "outs": [o2]}],
+             "trole": ["act", "w"] + (["b"] if bias else []) + ["act", "act"], "gins": [0], "gouts": [o2] if chained else [o1, o2]}
+      for sub in (one, two):
+        sub["tbuf"] = [1 if r == "w" else 0 for r in sub["trole"]]
+        sub["tsh"] = [[1, 2] if r == "act" else [0, 0] for r in sub["trole"]]
+        sub["sigrev"] = False
+      for m0 in smodes:
+        for m1 in smodes:
+          for m2 in smodes:
+            for order in (0, 1):
+              subs, mode = ([one, two], [[m0], [m1, m2]]) if order == 0 else ([two, one], [[m1, m2], [m0]])
+              if args.tier == "quick" and (len(shared) + args.seed) % 2:
+                shared.append(None)
+                continue
+              shared.append({"subs": copy.deepcopy(subs), "mode": copy.deepcopy(mode), "inmode": rgen.NOQ, "outmode": rgen.NOQ})
+  shared = [x for x in shared if x is not None]
+  rsh, shd = pipecheck.design_run_from("C19_shared_pairs", shared, [], timeout=7200)
+  if rsh.error or rsh.rc not in (0, 12):
+    chk.machinery("TLC failed on the shared-constant pairs: %s" % rsh.out[-600:])
+    return chk.finish()
+  nshared = 0
+  for k, d in shd.items():
+    nshared += k not in pairs
+    pairs.setdefault(k, d)
+    rd.setdefault(k, d)
   singles = {}
   for d in pairs.values():
     for si in range(2):
@@ -167,6 +215,8 @@ def main():
       continue
     ndesign += 1
     praise = [p for p in parts if p["pc"] == "raised"]
+    if d["pc"] == "raised" and not praise and d["why"] in SHARE_WHY and cross_shared(d["scn"]):
+      continue      # the tied constant is needed in two versions: the pair is refused (C15), there is nothing to compare
     if (d["pc"] == "raised") != bool(praise) or (d["pc"] == "raised" and d["why"] not in [p["why"] for p in praise]):
       chk.violation("design-level: pair outcome %s/%s but stand-alone outcomes %s" % (d["pc"], d["why"], [(p["pc"], p["why"]) for p in parts]),
                     {"property": "C19", "scenario": d["scn"], "clause": "design-outcome"})
@@ -179,10 +229,14 @@ def main():
         chk.violation("design-level: subgraph %d of the pair differs from its stand-alone transformation" % si,
                       {"property": "C19", "scenario": d["scn"], "clause": "design-independent", "pair": a, "alone": b})
   # ---- implementation
-  keys = common.sample_keep(sorted(pairs), 500 if args.tier == "quick" else 20000, args.seed)
+  shk = sorted(k for k in shd if cross_shared(pairs[k]["scn"]))
+  keys = common.sample_keep(sorted(k for k in pairs if k not in set(shk)), 400 if args.tier == "quick" else 20000, args.seed)
+  keys += common.sample_keep(shk, 160 if args.tier == "quick" else 10**6, args.seed)       # the shared-constant stratum is never sampled away
   # in a third of the pairs the second subgraph is not exported by any signature def (a body / helper subgraph)
   import zlib
-  items = [(dict(strip(pairs[k]["scn"]), **({"nosig": [1]} if zlib.crc32(k.encode()) % 3 == 0 else {})), args.seed) for k in keys]
+  items = [(dict(strip(pairs[k]["scn"]), **({"nosig": [1]} if zlib.crc32(k.encode()) % 3 == 0 else {}),
+                 **({"share_raise_predicted": True} if pairs[k]["pc"] == "raised" and pairs[k]["why"] in SHARE_WHY and cross_shared(pairs[k]["scn"]) else {})), args.seed)
+           for k in keys]
   t0 = time.time()
   import concurrent.futures as cf
   results = []
@@ -212,13 +266,13 @@ def main():
       chk.violation("graph predicates false on the pair's result", {"property": "C19", "scenario": items[i][0], "clause": "graph", "verdict": v})
   chk.cov.update({
       "states": r.distinct + r2.distinct + rs.distinct + rfp.distinct, "transitions": r.generated + r2.generated + rs.generated + rfp.generated,
-      "traces_validated_against_impl": ncmp, "pairs_enumerated": len(pairs), "design_level_pairs_compared": ndesign,
+      "traces_validated_against_impl": ncmp, "pairs_enumerated": len(pairs), "pairs_sharing_a_constant_buffer": nshared, "design_level_pairs_compared": ndesign,
       "evaluations": ncmp, "distinct_nontrivial": sum(1 for o in results if o.get("outcome") and o["outcome"][0] == "done"),
       "rule": "two-subgraph scenarios (independent graphs, equal structure with different names, insertion-heavy subgraph 0 beside a non-trivial "
-              "subgraph 1) enumerated by TLC up to the bound + random pairs of 2-5 ops; each compared with the stand-alone runs of its parts",
+              "subgraph 1, subgraphs sharing a constant buffer that one of them reads from two operators) enumerated by TLC up to the bound + random pairs of 2-5 ops; each compared with the stand-alone runs of its parts",
       "samples": [items[0][0]] if items else [], "impl_wall_s": round(time.time() - t0, 1), "exhaustive": len(keys) == len(pairs),
   })
-  chk.assumptions += ["statistics are injected per subgraph and merged (equal values for the pair and the parts); constants shared between subgraphs are C15's subject and excluded here"]
+  chk.assumptions += ["statistics are injected per subgraph and merged (equal values for the pair and the parts); for constants shared between subgraphs the stand-alone part holds its own copy of the data (their mutual consistency is C15's subject)"]
   return chk.finish()
 
 
